@@ -126,6 +126,10 @@ pub struct Observed {
     /// every other ExactSizeIterator of the results: (expected number of items when the rule set
     /// determines it, trace): tags and metadata of every rule, matches of every pattern, module outputs
     pub others: Vec<(Option<usize>, Trace)>,
+    /// what every rule of the results says about itself: (id, private, global, namespace number)
+    pub flags: Vec<(usize, bool, bool, usize)>,
+    /// a second call of matching_rules() / non_matching_rules() yields the same traces
+    pub again_same: bool,
 }
 
 pub fn observe(results: &yara_x::ScanResults, sched: &Vec<bool>, specs: &[RuleSpec]) -> Observed {
@@ -147,8 +151,14 @@ pub fn observe(results: &yara_x::ScanResults, sched: &Vec<bool>, specs: &[RuleSp
     let mut others = vec![];
     let every_rule: Vec<yara_x::Rule> = catch(AssertUnwindSafe(|| results.matching_rules().include_private(true)
         .chain(results.non_matching_rules().include_private(true)).collect::<Vec<_>>())).unwrap_or_default();
+    let mut flags = vec![];
     for r in &every_rule {
         let spec = &specs[rule_id(r.identifier())];
+        flags.push((rule_id(r.identifier()), r.is_private(), r.is_global(), r.namespace().strip_prefix("ns").and_then(|x| x.parse().ok()).unwrap_or(usize::MAX)));
+        // pattern iterators of EVERY rule, matching or not
+        let pid = |p: &yara_x::Pattern| p.identifier()[2..].parse::<usize>().unwrap();
+        others.push((Some(spec.pats.iter().filter(|p| !p.0).count()), trace_iter(r.patterns(), pid)));
+        others.push((Some(spec.pats.len()), trace_iter(r.patterns().include_private(true), pid)));
         let mut k = 0usize;
         others.push((Some(spec.ntags), trace_iter(r.tags(), |_| { k += 1; k - 1 })));
         let mut k = 0usize;
@@ -160,7 +170,9 @@ pub fn observe(results: &yara_x::ScanResults, sched: &Vec<bool>, specs: &[RuleSp
     }
     let mut k = 0usize;
     others.push((None, trace_iter(results.module_outputs(), |_| { k += 1; k - 1 })));
-    Observed { m_sw, nm_sw, m: [m0, m1], nm: [n0, n1], pats, others }
+    let again_same = trace_iter(results.matching_rules(), |r| rule_id(r.identifier())) == m0
+        && trace_iter(results.non_matching_rules().include_private(true), |r| rule_id(r.identifier())) == n1;
+    Observed { m_sw, nm_sw, m: [m0, m1], nm: [n0, n1], pats, others, flags, again_same }
 }
 
 fn coq_trace(t: &Trace) -> String {
@@ -256,9 +268,11 @@ pub fn run(args: &[String]) -> i32 {
         let coq_obs_pats = coq_list(&obs.pats, |(id, t)| format!("({}, {}, {})", coq_nat(*id), coq_trace(&t[0]), coq_trace(&t[1])));
         let coq_others = coq_list(&obs.others, |(n, t)| format!("({}, {})", coq_option(n, |x| coq_nat(*x)), coq_trace(t)));
         if obs.others.iter().any(|(_, t)| matches!(t, Some((tr, _)) if tr.len() >= 2)) { stats.inc("has_tags_metadata_or_matches_iterators_with_2+_items"); }
-        let case = format!("mkCase {} {} {} {} {} {} {} {} {} {} {} {}", coq_rules, coq_conds, coq_pats,
+        let coq_flags = coq_list(&obs.flags, |(id, p, g, ns)| format!("({}, {}, {}, {})", coq_nat(*id), coq_bool(*p), coq_bool(*g), coq_n(*ns as u64)));
+        if !obs.again_same { stats.inc("second_iteration_differs"); }
+        let case = format!("mkCase {} {} {} {} {} {} {} {} {} {} {} {} {} {}", coq_rules, coq_conds, coq_pats,
             coq_trace(&obs.m[0]), coq_trace(&obs.m[1]), coq_trace(&obs.nm[0]), coq_trace(&obs.nm[1]), coq_obs_pats,
-            coq_list(&sched, |b| coq_bool(*b).to_string()), coq_trace(&obs.m_sw), coq_trace(&obs.nm_sw), coq_others);
+            coq_list(&sched, |b| coq_bool(*b).to_string()), coq_trace(&obs.m_sw), coq_trace(&obs.nm_sw), coq_others, coq_flags, coq_bool(obs.again_same));
         if sched.len() >= 2 && sched.windows(2).any(|w| w[0] != w[1]) { stats.inc("include_private_switched_mid_iteration"); }
         let replay = format!("{{\"index\":{},\"block_mode\":{},\"source\":{},\"data_hex\":\"{}\",\"observed\":{}}}",
             i, block_mode, json_str(&full_source(&rules)), hex(&data),
